@@ -116,6 +116,9 @@ var outcomeLog = os.Getenv("VERIF_OUTCOMES") != ""
 
 type Driver struct {
 	outcomes map[string]int
+	nativeInputs    map[string][]map[string]string // entry -> sampled input assignments of discharged paths
+	nativeValidated int
+	nativeLog       []string
 	preemptOverride int // VERIF_PREEMPT (probing aid)
 	prop      string
 	tier      int
@@ -261,6 +264,25 @@ func (d *Driver) workerLoop(w *Worker, entry *HarnessEntry, deadline time.Time) 
 		if takeSample {
 			sample = r.modelSample()
 		}
+		if entry.Native && r.viol == nil && r.inconclusive == "" && !r.sched.pruned {
+			d.mu.Lock()
+			lim := 4
+			if d.tier > 0 {
+				lim = 16
+			}
+			want := len(d.nativeInputs[entry.Name]) < lim && (d.states%5 == 0 || d.states < 3)
+			d.mu.Unlock()
+			if want {
+				if in := r.modelSample(); in != nil {
+					d.mu.Lock()
+					if d.nativeInputs == nil {
+						d.nativeInputs = map[string][]map[string]string{}
+					}
+					d.nativeInputs[entry.Name] = append(d.nativeInputs[entry.Name], in)
+					d.mu.Unlock()
+				}
+			}
+		}
 		if r.viol != nil {
 			d.confirm(w, entry, r)
 		}
@@ -377,6 +399,19 @@ func (d *Driver) confirm(w *Worker, entry *HarnessEntry, r *Run) {
 	} else {
 		v.Msg += " [concrete re-execution did not reproduce: " + r2.inconclusive + "]"
 	}
+	if v.Confirmed && entry.Native && v.Kind == "assert" {
+		// replay on the natively compiled code with the model's inputs (DESIGN 2.11)
+		nr := d.nativeRun(entry, []map[string]string{v.Model})
+		switch {
+		case len(nr.failed) == 1:
+			v.Native = "reproduced natively: " + nr.failed[0]
+		case nr.ran == 1:
+			v.Confirmed = false
+			v.Msg += " [the counterexample does NOT reproduce on the natively compiled code: translator or stub fault]"
+		default:
+			v.Native = "native replay could not run: " + nr.buildErr
+		}
+	}
 	d.mu.Lock()
 	d.replayed++
 	d.mu.Unlock()
@@ -466,7 +501,8 @@ func (d *Driver) writeEvidence(workers []*Worker, wall time.Duration, verdict st
 		"schedule_bounds":               schedBounds,
 		"states":                        d.states,
 		"transitions":                   d.transitions,
-		"traces_validated_against_impl": nativeValidated,
+		"traces_validated_against_impl": d.nativeValidated,
+		"native_differential_runs":      d.nativeLog,
 		"samples":                       samples,
 		"obligations":                   obligations,
 		"discharged":                    discharged,
